@@ -19,12 +19,30 @@ type c13Op struct {
 }
 
 type c13Plan struct {
-	RefAfter bool            `json:"reference_after,omitempty"` // the sequential reference results are computed after the concurrent phase
-	Corpus []string          `json:"corpus"`
-	Files  map[string]string `json:"files,omitempty"`
-	Shared bool              `json:"shared_provider"`
-	Tasks  [][]c13Op         `json:"tasks"`
+	RefAfter bool              `json:"reference_after,omitempty"` // the sequential reference results are computed after the concurrent phase
+	Corpus   []string          `json:"corpus"`
+	Files    map[string]string `json:"files,omitempty"`
+	Shared   bool              `json:"shared_provider"`
+	Tasks    [][]c13Op         `json:"tasks"`
+	Names    bool              `json:"names_per_text,omitempty"` // every corpus text is parsed under its own input name (else all under one name)
 }
+
+func (p *c13Plan) nameOf(text int) string {
+	if p.Names {
+		return fmt.Sprintf("c13t%d", text)
+	}
+	return "c13"
+}
+
+// c13Errs: error values returned by the calls of the concurrent phase together with
+// their text at the moment of return (an error is a value: it must not change later).
+type c13KeptErr struct {
+	err  error
+	text string
+	op   c13Op
+}
+
+var c13Errs *[]c13KeptErr
 
 func init() {
 	register(&Workload{ID: "C13", Gen: c13Gen, New: func() interface{} { return &c13Plan{} },
@@ -96,6 +114,14 @@ func c13Text(r *simrt.RNG) string {
 		parts = append(parts, strings.TrimRight(c13Stmt(r, 0), "\n"))
 	}
 	t := strings.Join(parts, "\n")
+	if r.Bool(0.1) {
+		// truncated text: the parser runs out of tokens
+		fields := strings.Fields(t)
+		if len(fields) > 1 {
+			return strings.Join(fields[:1+r.Intn(len(fields)-1)], " ")
+		}
+		return ""
+	}
 	if r.Bool(0.2) {
 		// invalid text: drop or duplicate a token-ish fragment
 		fields := strings.Fields(t)
@@ -113,7 +139,7 @@ func c13Text(r *simrt.RNG) string {
 }
 
 func c13Gen(r *simrt.RNG, tier string) interface{} {
-	p := &c13Plan{Shared: r.Bool(0.5), RefAfter: r.Bool(0.4)}
+	p := &c13Plan{Shared: r.Bool(0.5), RefAfter: r.Bool(0.4), Names: r.Bool(0.5)}
 	p.Files = map[string]string{"lib.ecal": "func twice(x) {\n    if x > 0 {\n        return {\"v\": x * 2}.v\n    }\n    return 0\n}\n"}
 	nt := 3 + r.Intn(6)
 	for i := 0; i < nt; i++ {
@@ -205,17 +231,23 @@ func c13Do(op c13Op, p *c13Plan, erp *interpreter.ECALRuntimeProvider) (result s
 	}()
 	text := p.Corpus[op.Text]
 	if op.Kind == "parse" {
-		ast, err := parser.Parse("c13", text)
+		ast, err := parser.Parse(p.nameOf(op.Text), text)
 		if (ast == nil) == (err == nil) {
 			return fmt.Sprintf("BOTH-OR-NEITHER tree=%v err=%v", ast != nil, err)
 		}
 		if err != nil {
+			if c13Errs != nil {
+				*c13Errs = append(*c13Errs, c13KeptErr{err, err.Error(), op})
+			}
 			return "error: " + err.Error()
 		}
 		return "tree: " + c13Digest(ast)
 	}
-	ast, err := parser.ParseWithRuntime("c13", text, erp)
+	ast, err := parser.ParseWithRuntime(p.nameOf(op.Text), text, erp)
 	if err != nil {
+		if c13Errs != nil {
+			*c13Errs = append(*c13Errs, c13KeptErr{err, err.Error(), op})
+		}
 		return "eval-error: " + err.Error()
 	}
 	if c13Keep != nil {
@@ -375,7 +407,9 @@ func c13Run(p *c13Plan) {
 	}
 	var kept []*parser.ASTNode
 	c13Keep = &kept
-	defer func() { c13Keep = nil }()
+	var keptErrs []c13KeptErr
+	c13Errs = &keptErrs
+	defer func() { c13Keep, c13Errs = nil, nil }()
 	var wg simsync.WaitGroup
 	for ti, ops := range p.Tasks {
 		ti, ops := ti, ops
@@ -398,8 +432,15 @@ func c13Run(p *c13Plan) {
 		})
 	}
 	wg.Wait()
-	c13Keep = nil
+	c13Keep, c13Errs = nil, nil
 	c13CheckIDs(kept)
+	for _, ke := range keptErrs {
+		if now := ke.err.Error(); now != ke.text {
+			simrt.Fail("oracle:parse-not-reentrant", "error-value-changed",
+				"the error returned for corpus text %d (%s) changed after the call had returned.\n--- text:\n%s\n--- when returned:\n%s\n--- at the end of the concurrent phase:\n%s",
+				ke.op.Text, ke.op.Kind, p.Corpus[ke.op.Text], clip(ke.text), clip(now))
+		}
+	}
 	if p.RefAfter {
 		// the same calls executed alone, afterwards (texts with identifiers the process
 		// has never lexed are thus met first by the concurrent phase)
